@@ -207,6 +207,7 @@ class FnTrans:
                 lit = inner[0]
                 while lit.get("kind") in ("ParenExpr", "ImplicitCastExpr") and lit.get("castKind", "NoOp") in ("NoOp",): lit = lit["inner"][0]
                 if lit.get("kind") == "IntegerLiteral":
+                    if self.tmap.get("double") == "SZ": return "(SZ.ofRat (%s : Rat))" % lit["value"], "SZ", p
                     return "(%s : Rat)" % lit["value"], "Rat", p
                 return "((%s : %s) : Rat)" % (t, ty), "Rat", p
             if ck == "IntegralToBoolean":
@@ -232,6 +233,7 @@ class FnTrans:
         if k == "FloatingLiteral":
             v = n["value"]
             fr = self.float_to_rat(v)
+            if self.tmap.get("double") == "SZ": return "(SZ.ofRat (%s : Rat))" % fr, "SZ", None
             return "(%s : Rat)" % fr, "Rat", None
         if k == "CXXBoolLiteralExpr":
             return ("true" if n["value"] else "false"), "Bool", None
@@ -288,6 +290,24 @@ class FnTrans:
                         t_, ty_, p_ = self.expr(u_, env)
                         if not ty_.startswith("Option "): raise Unsupported("%s: nullptr comparison of %s" % (self.name, ty_))
                         return ("%s.isNone" if op == "==" else "%s.isSome") % t_, "Bool", p_
+            if op in ("==", "!="):
+                # unscoped enums are compared through promotions to int: compare the enum values themselves
+                def strip_ic(x):
+                    while x.get("kind") == "ImplicitCastExpr" and x.get("castKind") in ("IntegralCast", "LValueToRValue", "NoOp"):
+                        if x.get("castKind") == "IntegralCast":
+                            y = x["inner"][0]
+                            return y
+                        x = x["inner"][0]
+                    return None
+                sa, sb = strip_ic(inner[0]), strip_ic(inner[1])
+                if sa is not None and sb is not None:
+                    try:
+                        a0, ta0, pa0 = self.expr(sa, env); b0, tb0, pb0 = self.expr(sb, env)
+                        if ta0 == tb0 and ta0 not in ("Nat", "Int", "Bool", "Rat", "SZ"):
+                            lop0 = "=" if op == "==" else "≠"
+                            return "(decide (%s %s %s))" % (a0, lop0, b0), "Bool", self.conj(pa0, pb0)
+                    except Unsupported:
+                        pass
             a, ta, pa = self.expr(inner[0], env)
             b, tb, pb = self.expr(inner[1], env)
             if op in ("+", "-", "*", "/"):
@@ -303,6 +323,11 @@ class FnTrans:
             if op in ("<", ">", "<=", ">=", "==", "!="):
                 if ta != tb: raise Unsupported("%s: mixed comparison %s %s %s" % (self.name, ta, op, tb))
                 lop = {"<": "<", ">": ">", "<=": "≤", ">=": "≥", "==": "=", "!=": "≠"}[op]
+                if ta == "SZ":
+                    f_ = {"==": "(SZ.eqVal %s %s)", "!=": "(!(SZ.eqVal %s %s))", "<": "(SZ.lt %s %s)", "<=": "(SZ.le %s %s)",
+                          ">": "(SZ.lt %s %s)", ">=": "(SZ.le %s %s)"}[op]
+                    x_, y_ = (b, a) if op in (">", ">=") else (a, b)
+                    return f_ % (x_, y_), "Bool", self.conj(pa, pb)
                 if ta == "Bool":
                     return ("(%s == %s)" if op == "==" else "(%s != %s)") % (a, b), "Bool", self.conj(pa, pb)
                 return "(decide (%s %s %s))" % (a, lop, b), "Bool", self.conj(pa, pb)
@@ -417,8 +442,10 @@ class FnTrans:
                 t, ty, p = self.expr(rawargs[0], env)
                 if ty != "Rat": raise Unsupported("%s: isnan on %s" % (self.name, ty))
                 return "false", "Bool", p
-            if cname == "signbit":
-                raise Unsupported("signbit needs the SZ type map")
+            if cname in ("signbit", "floor", "ceil"):
+                t, ty, p = self.expr(rawargs[0], env)
+                if ty != "SZ": raise Unsupported("%s needs the SZ type map (double -> SZ)" % cname)
+                return "(SZ.%s %s)" % (cname, t), ("Bool" if cname == "signbit" else "SZ"), p
             if cname not in self.known:
                 raise Unsupported("%s: call to non-whitelisted %s" % (self.name, cname))
             g = self.known[cname]
